@@ -186,6 +186,9 @@ def correspondence(ctx):
         cands.append(("nonphysical", vr, None))
         e = np.zeros(nv); e[int(S.g.integers(0, nv))] = 1.0
         cands.append(("unit", e, None))
+        if ctx.quick and spec[6] != "all":
+            # quick tier: custom schedule lists are compared on the coefficients and on two candidates only
+            cands = [c_ for c_ in cands if c_[0] in ("interior", "nonphysical")]
         for lab, v, obj in cands:
             vt = qlist(v)
             built = S.qt.convert_var_to_qoperation(v)
@@ -348,8 +351,9 @@ def _check_setup(ctx, spec, full_basis=True):
                 return
     # --- library paths: generate_prob_dists_sequence, calc_prob_dist(s) for physical candidates
     cand = [S.true_var(cls)[0] for cls in ("interior", "boundary", "pure")]
-    if kind != "qpt":
-        # boundary candidates with exact zero-probability outcomes that are not the last outcome
+    if kind != "qpt" and (spec[1].startswith("typical") or spec[2] == "typical"):
+        # boundary candidates with exact zero-probability outcomes that are not the last outcome (exact zeros only
+        # arise against axis-aligned typical testers)
         cand += ts.edge_objects(S.c_sys, kind, S.m, flag)
     # the same candidates handed over in another memory layout (Fortran-ordered / transposed-view / strided arrays)
     cand += [ts.layout_variant(t, S.c_sys, flag) for t in cand[:3]]
